@@ -14,7 +14,7 @@ class AXILMaster(Agent):
     bready/rready: literal patterns (one symbol per cycle; afterwards always ready)."""
 
     def __init__(self, bus, ops, name="m0", max_out=1, w_lead=0, bready="", rready="", idle_garbage=None,
-                 single_target=None):
+                 single_target=None, hazard=False, word_shift=2, hazard_key=None):
         self.bus, self.name = bus, name
         self.writes = [o for o in ops if o["kind"] == "w"]
         self.reads_ = [o for o in ops if o["kind"] == "r"]
@@ -36,6 +36,28 @@ class AXILMaster(Agent):
         self.single_target = single_target   # callable addr -> slave index: never have requests outstanding to two slaves
         self.stall = {"aw": 0, "w": 0, "ar": 0}
         self.hold_new = False
+        self.pres = {"aw": [], "w": [], "ar": []}     # presentation cycle of each request
+        self.proto = []
+        self._held = {"b": None, "r": None}
+        # program-order hazards (memory semantics): a request waits for earlier conflicting ones (same word, one a write)
+        self.w_after_r = self.r_after_w = None
+        if hazard:
+            wi = ri = 0
+            seq = []
+            hk = hazard_key or (lambda a: a >> word_shift)
+            for o in ops:
+                if o["kind"] == "w":
+                    seq.append(("w", wi, hk(o["addr"])))
+                    wi += 1
+                else:
+                    seq.append(("r", ri, hk(o["addr"])))
+                    ri += 1
+            self.w_after_r = {i: [] for i in range(wi)}
+            self.r_after_w = {i: [] for i in range(ri)}
+            for n, (k, i, a) in enumerate(seq):
+                for (k2, i2, a2) in seq[:n]:
+                    if a2 == a and k != k2:
+                        (self.w_after_r if k == "w" else self.r_after_w)[i].append(i2)
 
     def done(self):
         return self.b_n >= len(self.writes) and self.r_n >= len(self.reads_)
@@ -83,6 +105,16 @@ class AXILMaster(Agent):
             self.ar_wait = self.reads_[self.ar_i].get("ar_gap", 0) if self.ar_i < len(self.reads_) else 0
         elif self.ar_on:
             self.stall["ar"] += 1
+        for ch, payload in (("b", (b.b.resp,)), ("r", (b.r.data, b.r.resp))):
+            chan = getattr(b, ch)
+            cur = tuple(v[x] for x in payload) if v[chan.valid] else None
+            held = self._held[ch]
+            if held is not None:
+                if cur is None:
+                    self.proto.append((t, ch, "valid withdrawn before ready"))
+                elif cur != held:
+                    self.proto.append((t, ch, "payload changed before ready: %r -> %r" % (held, cur)))
+            self._held[ch] = cur if (cur is not None and not v[chan.ready]) else None
         if v[b.b.valid] and v[b.b.ready]:
             self.log["b"].append((t, v[b.b.resp]))
             self.bench.event(self.name, "b", t, v[b.b.resp])
@@ -97,8 +129,10 @@ class AXILMaster(Agent):
                 out = self.writes[self.b_n:self.aw_i]       # accepted AW without B yet (w may still be pending)
                 if self.aw_wait > 0:
                     self.aw_wait -= 1
-                elif (self.aw_i - self.b_n) < self.max_out and self._target_ok(self.writes[self.aw_i]["addr"], out):
+                elif (self.aw_i - self.b_n) < self.max_out and self._target_ok(self.writes[self.aw_i]["addr"], out) \
+                        and (self.w_after_r is None or all(j < self.r_n for j in self.w_after_r[self.aw_i])):
                     op = self.writes[self.aw_i]
+                    self.pres["aw"].append(t + 1)
                     w(b.aw.valid, 1)
                     w(b.aw.addr, op["addr"])
                     self.aw_on = True
@@ -111,8 +145,10 @@ class AXILMaster(Agent):
                 if self.w_wait > 0:
                     self.w_wait -= 1
                 else:
-                    # W may lead its AW only within w_lead (0: the AW must already be accepted)
-                    lead_ok = (self.w_i < self.aw_acc) or (self.w_lead > 0 and self.w_i < self.aw_acc + self.w_lead)
+                    # W may be raised as soon as its AW is being presented (a master must not wait for AWREADY);
+                    # with w_lead > 0 it may even precede the AW by that many writes
+                    presented = self.aw_acc + (1 if self.aw_on else 0)
+                    lead_ok = (self.w_i < presented) or (self.w_lead > 0 and self.w_i < presented + self.w_lead)
                     if lead_ok and (self.w_i - self.b_n) < self.max_out:
                         op = self.writes[self.w_i]
                         w(b.w.valid, 1)
@@ -128,7 +164,9 @@ class AXILMaster(Agent):
                 out = self.reads_[self.r_n:self.ar_i]
                 if self.ar_wait > 0:
                     self.ar_wait -= 1
-                elif (self.ar_i - self.r_n) < self.max_out and self._target_ok(self.reads_[self.ar_i]["addr"], out):
+                elif (self.ar_i - self.r_n) < self.max_out and self._target_ok(self.reads_[self.ar_i]["addr"], out) \
+                        and (self.r_after_w is None or all(j < self.b_n for j in self.r_after_w[self.ar_i])):
+                    self.pres["ar"].append(t + 1)
                     w(b.ar.valid, 1)
                     w(b.ar.addr, self.reads_[self.ar_i]["addr"])
                     self.ar_on = True
@@ -174,17 +212,32 @@ class AXILSlave(Agent):
         self.cur_b = self.cur_r = None
         self.is_silent = False
         self.silent_mid_request = False
+        self.wshift = (len(bus.w.strb) - 1).bit_length()
+        self.proto = []      # protocol violations seen on the channels the DUT drives towards this slave
+        self._held = {"aw": None, "w": None, "ar": None}
 
     def _err(self, addr):
         return self.err_range is not None and self.err_range[0] <= addr < self.err_range[1]
 
     def _rdata(self, addr):
-        if self.memory is not None and (addr >> 2) in self.memory:
-            return self.memory[addr >> 2]
-        return self.read_data(addr)
+        sh = self.wshift
+        if self.memory is not None and (addr >> sh) in self.memory:
+            return self.memory[addr >> sh]
+        return self.read_data((addr >> sh) << sh)
 
     def step(self, v, t, w):
         b = self.bus
+        # ---- protocol: a raised valid is never withdrawn or changed before its ready
+        for ch, payload in (("aw", (b.aw.addr,)), ("w", (b.w.data, b.w.strb)), ("ar", (b.ar.addr,))):
+            chan = getattr(b, ch)
+            cur = tuple(v[x] for x in payload) if v[chan.valid] else None
+            held = self._held[ch]
+            if held is not None:
+                if cur is None:
+                    self.proto.append((t, ch, "valid withdrawn before ready"))
+                elif cur != held:
+                    self.proto.append((t, ch, "payload changed before ready: %r -> %r" % (held, cur)))
+            self._held[ch] = cur if (cur is not None and not v[chan.ready]) else None
         # ---- completed handshakes
         if v[b.aw.valid] and v[b.aw.ready]:
             self.awq.append(v[b.aw.addr])
@@ -221,7 +274,7 @@ class AXILSlave(Agent):
                 for i in range(len(b.w.strb)):
                     if (s >> i) & 1:
                         old = (old & ~(0xff << (8 * i))) | (d & (0xff << (8 * i)))
-                self.memory[a >> 2] = old
+                self.memory[a >> self.wshift] = old
         if self.silent_from is not None and t >= self.silent_from and not self.is_silent:
             # die only with nothing accepted-but-unanswered (that case is a listed known finding, replayed separately)
             # (a write whose address OR data alone was accepted is not complete: dying there is allowed)
